@@ -154,7 +154,7 @@ impl<D: DataT, E: FromBoxError> MultipartStream<D, E> {
             /*@C01,C06,C07,C12,C20 #wf_preserved shared*/ !(r matches Poll::Ready(Some(Err(_)))) ==> final(self).wf(),
             /*@C12,C20 #wf_after_error*/ (r matches Poll::Ready(Some(Err(_)))) ==> final(self).wf(),
             /*@C06 #frame_unchanged*/ final(self).ranges == old(self).ranges && final(self).entity == old(self).entity && final(self).part_headers@.len() == old(self).part_headers@.len(),
-            /*@C01,C12 #accounting*/ match r {
+            /*@C01,C12 #accounting shared*/ match r {
                 Poll::Ready(Some(Ok(d))) => d.bytes().len() <= old(self).remaining && final(self).remaining == old(self).remaining - d.bytes().len(),
                 Poll::Ready(Some(Err(_))) => final(self).remaining == 0,
                 Poll::Ready(None) => old(self).remaining == 0 && final(self).remaining == 0,
@@ -243,6 +243,17 @@ impl<D: DataT, E: FromBoxError> BodyStream<D, E> {
     //@end
 }
 
+/// Nothing owed means the multipart stream is in its terminal state (the trailer is the last 9 owed bytes).
+proof fn lemma_zero_is_terminal<D: DataT, E: FromBoxError>(s: MultipartStream<D, E>)
+    requires s.wf(), s.remaining == 0
+    ensures s.terminal()
+{
+    let n = s.ranges@.len() as int;
+    let i = (s.state / 2) as int;
+    lemma_rest_nonneg(s.part_headers@, s.ranges@, i);
+    lemma_rest_nonneg(s.part_headers@, s.ranges@, i + 1);
+}
+
 /// `poll_frame` result with the `Frame::data` wrapper removed.
 spec fn unframe<D, E>(r: Poll<Option<Result<Frame<D>, E>>>) -> Poll<Option<Result<D, E>>> {
     match r {
@@ -273,6 +284,7 @@ impl<D: DataT, E: FromBoxError> Body<D, E> {
                 && (s0.terminal() ==> unframe(r) matches Poll::Ready(None))),
             /*@C08,C11,C12,C20 #frame_chunker*/ old(self).0 matches BodyStream::Chunker(c0) ==> (final(self).0 matches BodyStream::Chunker(c1) && c0.poll_rel(unframe(r), c1)),
     //@body
+    //@ at_start: let ghost body0 = self.0; proof { if let BodyStream::Multipart(s) = body0 { if s.remaining == 0 { lemma_zero_is_terminal(s); } } }
     //@end
 
     //@fn src/body.rs :: impl Body for Body :: fn size_hint props=C01,C12
